@@ -766,6 +766,10 @@ class HttpRequestParser(HttpParser[RawRequestMessage]):
             if method == "CONNECT":
                 # authority-form,
                 # https://datatracker.ietf.org/doc/html/rfc7230#section-5.3.3
+                # uri-host [":" port], like Host: no userinfo, no path and
+                # a non-empty host.
+                if not _HOST_RE.fullmatch(path):
+                    raise ValueError("CONNECT target is not in authority-form")
                 url = URL.build(authority=path, encoded=True)
             elif path.startswith("/"):
                 # origin-form,
